@@ -6,6 +6,7 @@ from __future__ import annotations
 
 import asyncio
 import json
+import re
 import struct
 from types import SimpleNamespace
 from unittest import mock
@@ -117,6 +118,16 @@ class RecTracer(Tracer):
 
     def on_error(self, trace_context, request, error):
         self.log.append({'t': str(self.idx), 'ctx': self._ctx(trace_context), 'k': 'error', 'exc': enc_exc(error)})
+        ERROR_ATTEMPTS.append(attempt_of(error))
+
+
+ERROR_ATTEMPTS = []       # for every on_error event, in order: which attempt's exception object it was given (None: not a scripted one)
+
+
+def attempt_of(e):
+    """the scripted transport exceptions carry the number of the attempt that raised them"""
+    m = re.search(r'marker #(\d+)$', str(e.args[0])) if getattr(e, 'args', None) and isinstance(e.args[0], str) else None
+    return int(m.group(1)) if m else None
 
 
 class _Script:
@@ -128,7 +139,7 @@ class _Script:
         a = self.attempts[min(self.k, len(self.attempts) - 1)]
         self.k += 1
         if a['k'] == 'exc':
-            raise EXC[a['name']]('transport failure marker')
+            raise EXC[a['name']](f'transport failure marker #{self.k - 1}')
         if a['k'] == 'none':
             return None
         if a['k'] == 'empty':
@@ -190,6 +201,84 @@ def client_kwargs(cl):
 
 
 _SESSIONS = {}
+
+
+class _OverlapTracer(Tracer):
+    def __init__(self, idx, log):
+        self.idx, self.log = idx, log
+
+    def on_request_begin(self, trace_context, request):
+        self.log.append((getattr(trace_context, 'i', None), {'t': str(self.idx), 'ctx': '0', 'k': 'begin'}))
+
+    def on_request_end(self, trace_context, request, response):
+        self.log.append((getattr(trace_context, 'i', None), {'t': str(self.idx), 'ctx': '0', 'k': 'end', 'resp': enc_any_response(response)}))
+
+    def on_error(self, trace_context, request, error):
+        self.log.append((getattr(trace_context, 'i', None), {'t': str(self.idx), 'ctx': '0', 'k': 'error', 'exc': enc_exc(error)}))
+
+
+def run_overlap(c, is_async):
+    """`n` identical requests whose attempts are all in flight at the same time on ONE client object (tasks gathered on the
+    asynchronous client, threads on the synchronous one): every transport call starts before any of them returns.  Returns
+    the per-request observations; each must look exactly like the lone request the model is given."""
+    import threading
+    cl, n = c['client'], int(c['overlap']['n'])
+    a = c['attempts'][0]
+    log = []
+    kw = client_kwargs(cl)
+    kw['tracers'] = [_OverlapTracer(i, log) for i in range(int(cl['tracers']))]
+
+    def reply():
+        if a['k'] == 'exc':
+            raise EXC[a['name']]('transport failure marker #0')
+        return None if a['k'] == 'none' else ('' if a['k'] == 'empty' else a['text'])
+    request = build_request(c['request']['req'])
+    finals = [None] * n
+    if is_async:
+        state = {'in': 0, 'ev': None}
+
+        class C(AbstractAsyncClient):
+            async def _request(self, request_text, is_notification=False, **kwargs):
+                state['in'] += 1
+                if state['in'] == n:
+                    state['ev'].set()
+                await state['ev'].wait()
+                return reply()
+        client = C(**kw)
+
+        async def one(i):
+            try:
+                r = await client.send(build_request(c['request']['req']), _trace_ctx=SimpleNamespace(i=i))
+                finals[i] = {'resp': enc_any_response(r)}
+            except BaseException as e:  # noqa
+                finals[i] = {'raised': enc_exc(e)}
+
+        async def go():
+            state['ev'] = asyncio.Event()
+            await asyncio.gather(*[one(i) for i in range(n)])
+        S.loop().run_until_complete(go())
+    else:
+        barrier = threading.Barrier(n)
+
+        class C(AbstractClient):
+            def _request(self, request_text, is_notification=False, **kwargs):
+                barrier.wait(timeout=10)
+                return reply()
+        client = C(**kw)
+
+        def one(i):
+            try:
+                r = client.send(build_request(c['request']['req']), _trace_ctx=SimpleNamespace(i=i))
+                finals[i] = {'resp': enc_any_response(r)}
+            except BaseException as e:  # noqa
+                finals[i] = {'raised': enc_exc(e)}
+        ts = [threading.Thread(target=one, args=(i,)) for i in range(n)]
+        for t in ts:
+            t.start()
+        for t in ts:
+            t.join(20)
+    per = [{'trace': [ev for (i, ev) in log if i == k], 'final': finals[k]} for k in range(n)]
+    return {'overlap': per, 'stray': [ev for (i, ev) in log if i is None]}
 
 
 def _fixed_ids(request_specs):
@@ -281,6 +370,8 @@ def run_send(c, is_async):
 
     final = None
     related = None
+    del ERROR_ATTEMPTS[:]
+    raised_attempt = None
     try:
         if is_async:
             with mock.patch.object(retry_mod.asyncio, 'sleep', fake_asleep):
@@ -313,12 +404,15 @@ def run_send(c, is_async):
     except BaseException as e:  # noqa
         final = {'raised': enc_exc(e)}
         value = {'raised': enc_exc(e)}
+        raised_attempt = attempt_of(e)
     wire = None
     if script.sent:
         wire = enc(json.loads(script.sent[0]))
     same_doc = all(json.loads(t) == json.loads(script.sent[0]) for t in script.sent)
     out = {'wire': wire, 'sends': str(len(script.sent)), 'sleeps': sleeps, 'final': final, 'value': value, 'related': related,
-           'trace': trace, 'same_doc_each_attempt': same_doc}
+           'trace': trace, 'same_doc_each_attempt': same_doc,
+           # identity of exception objects (not part of any projection; read by the oracles only)
+           'raised_attempt': raised_attempt, 'error_event_attempts': list(ERROR_ATTEMPTS)}
     if c.get('tag') == 'relate':
         out['value_call'] = value_via_call(c, is_async)
     return out
